@@ -168,7 +168,7 @@ def render_text(doc, style):
     return "".join(out)
 
 
-def pad_strings(doc, schema, types, rnd, p=0.5):
+def pad_strings(doc, schema, types, rnd, p=0.5, avoid=None):
     """a copy of the token list in which character-data leaves get white space at their edges (kept by from_etree and
     by a CDATA section; only plain wire text is trimmed); None if the document has no such leaf"""
     out = []
@@ -182,7 +182,8 @@ def pad_strings(doc, schema, types, rnd, p=0.5):
             stack.pop()
         elif stack and stack[-1] in schema:
             a = next((x for x in schema[stack[-1]]["attrs"] if x["tag"] == t["tag"] and x["k"] in ("elem", "lelem")), None)
-            if a is not None and a["ty"] and types[int(a["ty"][1:])]["k"] in ("str", "nag") and rnd.random() < p:
+            if a is not None and a["ty"] and types[int(a["ty"][1:])]["k"] in ("str", "nag") and rnd.random() < p \
+                    and not (avoid and avoid in uncps(t["text"])):
                 pad = rnd.choice([" ", "  ", "\n", "\t ", "\r\n"])
                 how = rnd.randrange(3)
                 t["text"] = (cps(pad) if how != 1 else []) + list(t["text"]) + (cps(pad) if how != 0 else [])
